@@ -80,7 +80,7 @@ func drawOp(t *rapid.T, actor, ndocs, pref int, label string) Step {
 			if rapid.IntRange(0, 7).Draw(t, label+"own") != 3 {
 				st.D = pref % ndocs
 			}
-		case "list", "count":
+		case "list", "count", "docids":
 			if rapid.IntRange(0, 3).Draw(t, label+"narrow") != 2 {
 				st = Step{A: actor, K: "get", D: pref % ndocs, R: st.R}
 			}
@@ -92,7 +92,7 @@ func drawOp(t *rapid.T, actor, ndocs, pref int, label string) Step {
 func drawOp0(t *rapid.T, actor, ndocs int, label string) Step {
 	st := Step{A: actor}
 	// weights: update 6, create 4, delete 3, get 4, list 3, count 1, indexes 1 (per 22), DDL ~1/22
-	k := rapid.IntRange(0, 22).Draw(t, label+"kind")
+	k := rapid.IntRange(0, 24).Draw(t, label+"kind")
 	switch {
 	case k < 6:
 		st.K = "update"
@@ -108,6 +108,8 @@ func drawOp0(t *rapid.T, actor, ndocs int, label string) Step {
 		st.K = "count"
 	case k < 22:
 		st.K = "indexes"
+	case k < 24:
+		st.K = "docids"
 	default:
 		if rapid.IntRange(0, 2).Draw(t, label+"ddl") < 2 {
 			st.K = "mkindex"
